@@ -522,6 +522,7 @@ func TransformJSONProtoToDSL(model *openfgav1.AuthorizationModel, opts ...Transf
 	}
 
 	if isModularModel {
+		typeDefs = slices.Clone(typeDefs)
 		slices.SortStableFunc(typeDefs, func(a, b *openfgav1.TypeDefinition) int {
 			return sortByModule(
 				a.GetType(), b.GetType(),
